@@ -12,7 +12,7 @@
    (C06_engine_statement below is the full claim for the model). *)
 From Coq Require Import List Bool Arith NArith.
 From CrabV Require Import Fix.Wto Fix.Engine Fix.EngineBelow Fix.Kleene Fix.KleeneSound Fix.EngineFS Fix.EngineCheck
-     Fix.EngineFSSound.
+     Fix.EngineFSSound Fix.WtoCheck Fix.WtoSound Fix.WtoRoot Fix.EngineRel Fix.EngineSound Fix.EngineFSExact.
 Import ListNotations.
 
 Theorem C06_least_solution_is_reachability : forall F rounds t, in_range F -> lfp F rounds = Some t ->
@@ -53,12 +53,12 @@ Theorem C06_inductive_tables_contain_reachability :
 Proof. intros. eapply inductive_sound; eauto. Qed.
 
 (* the engine model never invents a state: every table entry is included in the least
-   solution — all CFGs, all WTOs in which the start block occurs in a cycle only as its head,
+   solution — all CFGs, all WTOs, all start blocks,
    all delays / descending counts / fuel, any assumption map *)
 Theorem C06_engine_below_least_solution :
   forall S F w delay desc fuel use_asm t, in_range F -> solves F t ->
   (use_asm = false -> forall n, f_asm F n = None) ->
-  forall e, entry_ok (f_entry F) w = true -> sub (f_init F) (Lpre F t (f_entry F)) ->
+  forall e, sub (f_init F) (Lpre F t (f_entry F)) ->
   fs_engine S F w delay desc use_asm fuel = Some e ->
   forall n, sub (e_pre N e n) (Lpre F t n) /\ sub (e_post N e n) (Lpost F t n).
 Proof. exact fs_engine_below. Qed.
@@ -68,7 +68,7 @@ Proof. exact fs_engine_below. Qed.
 Theorem C06_engine_exact_when_accepted :
   forall S F w delay desc fuel rounds use_asm t, in_range F -> lfp F rounds = Some t ->
   (use_asm = false -> forall n, f_asm F n = None) ->
-  forall e, entry_ok (f_entry F) w = true -> sub (f_init F) (fst t (f_entry F)) ->
+  forall e, sub (f_init F) (fst t (f_entry F)) ->
   fs_engine S F w delay desc use_asm fuel = Some e ->
   inductive_ok N (fs_ops S) (fun n a => image (f_rel F n) a) (f_preds F) (f_entry F) use_asm (f_asm F)
                (f_init F) (seq 0 (f_blocks F)) (e_pre N e) (e_post N e) = true ->
@@ -98,6 +98,91 @@ Proof.
   cbv zeta. eexists. split; [vm_compute; reflexivity|]. split; [reflexivity|]. split; [reflexivity|].
   eexists. eexists. split; [vm_compute; reflexivity|]. split; [vm_compute; reflexivity|]. split; reflexivity.
 Qed.
+
+(* ---- the engine itself, no checker involved: soundness (Fix/EngineSound.v) + the bound from below
+   (Fix/EngineBelow.v) give exactness for every well-formed ordering, every start block of it,
+   every widening delay and number of descending iterations ---- *)
+Theorem C06_engine_is_least_solution :
+  forall S F w delay desc fuel rounds use_asm t, in_range F -> lfp F rounds = Some t ->
+  (use_asm = false -> forall n, f_asm F n = None) ->
+  sub (f_init F) (fst t (f_entry F)) ->
+  NoDup (flat w) ->
+  (forall n p, In p (f_preds F n) -> In p (flat w) -> In n (flat w) /\ lok w p n) ->
+  In (f_entry F) (flat w) ->
+  forall e, fs_engine S F w delay desc use_asm fuel = Some e ->
+  forall n, n < f_blocks F -> e_pre N e n = fst t n /\ e_post N e n = snd t n.
+Proof. exact fs_engine_is_lfp. Qed.
+Print Assumptions C06_engine_is_least_solution.
+
+Theorem C06_engine_is_reachability :
+  forall S F w delay desc fuel rounds use_asm t, in_range F -> lfp F rounds = Some t ->
+  (use_asm = false -> forall n, f_asm F n = None) ->
+  sub (f_init F) (fst t (f_entry F)) ->
+  NoDup (flat w) ->
+  (forall n p, In p (f_preds F n) -> In p (flat w) -> In n (flat w) /\ lok w p n) ->
+  In (f_entry F) (flat w) ->
+  forall e, fs_engine S F w delay desc use_asm fuel = Some e ->
+  forall n s, n < f_blocks F ->
+    (smem s (e_pre N e n) = true <-> KleeneSound.ReachPre F n s) /\
+    (smem s (e_post N e n) = true <-> KleeneSound.ReachPost F n s).
+Proof. exact fs_engine_is_reach. Qed.
+Print Assumptions C06_engine_is_reachability.
+
+Theorem C06_engine_on_built_wto_is_least_solution :
+  forall S F g w delay desc fuel rounds use_asm t,
+  in_range F -> lfp F rounds = Some t ->
+  (use_asm = false -> forall n, f_asm F n = None) ->
+  sub (f_init F) (fst t (f_entry F)) ->
+  (forall n p, In p (f_preds F n) -> In n (succs g p)) ->
+  forall e0, build g e0 = Some w -> In (f_entry F) (flat w) ->
+  forall e, fs_engine S F w delay desc use_asm fuel = Some e ->
+  forall n, n < f_blocks F ->
+    e_pre N e n = fst t n /\ e_post N e n = snd t n /\
+    (forall s, smem s (e_pre N e n) = true <-> KleeneSound.ReachPre F n s) /\
+    (forall s, smem s (e_post N e n) = true <-> KleeneSound.ReachPost F n s).
+Proof. exact fs_engine_build_is_lfp. Qed.
+Print Assumptions C06_engine_on_built_wto_is_least_solution.
+
+(* C06_engine_statement (w unconstrained) is false: the start block must occur in w *)
+Theorem C06_engine_statement_needs_wto_hypotheses :
+  ~ (forall S F w delay desc use_asm fuel rounds e t,
+       in_range F ->
+       fs_engine S F w delay desc use_asm fuel = Some e -> lfp F rounds = Some t ->
+       forall n, n < f_blocks F -> e_pre N e n = fst t n /\ e_post N e n = snd t n).
+Proof. exact engine_statement_needs_wto_hypotheses. Qed.
+Print Assumptions C06_engine_statement_needs_wto_hypotheses.
+
+Example C06_engine_exact_example :
+  let F := mkF 3 (fun n => match n with 0 => [1] | 1 => [0] | 2 => [0] | _ => [] end)
+               (fun n => match n with
+                         | 0 | 2 => [(0,0);(1,1);(2,2);(3,3)]%N
+                         | 1 => [(0,1);(1,2);(2,3)]%N | _ => [] end)
+               0 1%N (fun _ => None) in
+  let g := [[1;2];[0];[]] in
+  let w := [Cycle 0 [Vertex 1]; Vertex 2] in
+  in_range F /\ (forall n p, In p (f_preds F n) -> In n (succs g p)) /\
+  build g (f_entry F) = Some w /\
+  exists t e, lfp F 14 = Some t /\ sub (f_init F) (fst t (f_entry F)) /\
+    fs_engine 4 F w 2 1 false 60 = Some e /\
+    e_pre N e 2 = 15%N /\ forall s, smem s 15%N = true <-> KleeneSound.ReachPre F 2 s.
+Proof. exact fs_engine_build_is_lfp_example. Qed.
+Print Assumptions C06_engine_exact_example.
+
+(* the start block strictly inside a cycle: exact (the unrepaired engine lost states 1,2,3) *)
+Example C06_entry_inside_cycle_exact_example :
+  let F := mkF 2 (fun n => match n with 0 => [1] | 1 => [0] | _ => [] end)
+               (fun n => match n with
+                         | 0 => [(0,0);(1,1);(2,2);(3,3)]%N
+                         | 1 => [(0,1);(1,2);(2,3)]%N | _ => [] end)
+               1 1%N (fun _ => None) in
+  let w := [Cycle 0 [Vertex 1]] in
+  build [[1];[0]] 0 = Some w /\ entry_ok (f_entry F) w = false /\
+  exists e, fs_engine 4 F w 2 1 false 60 = Some e /\
+            e_pre N e 1 = 15%N /\ e_post N e 1 = 14%N /\ e_pre N e 0 = 14%N /\ e_post N e 0 = 14%N /\
+            (forall n s, n < 2 -> (smem s (e_pre N e n) = true <-> KleeneSound.ReachPre F n s) /\
+                                  (smem s (e_post N e n) = true <-> KleeneSound.ReachPost F n s)).
+Proof. exact entry_inside_cycle_exact_example. Qed.
+Print Assumptions C06_entry_inside_cycle_exact_example.
 
 Print Assumptions C06_least_solution_is_reachability.
 Print Assumptions C06_iterates_below_reachability.
